@@ -3,6 +3,7 @@
   Model: MosVerif/Model/Prefetch.lean (on top of C08's cache model), lemmas: MosVerif/Lemmas/Prefetch.lean.
 -/
 import MosVerif.Lemmas.Prefetch
+import MosVerif.Lemmas.PrefetchE2E
 import MosVerif.Generated.Facts
 namespace MosVerif.C19
 open MosVerif.Ttl MosVerif.Prefetch
@@ -261,18 +262,20 @@ example : specCtl [] [.reserve 1, .reserve 1] [1, 1] = false := by decide
 example : specCtl [] [.reserve 1, .done 1, .reserve 1] [1, 1] = true := by decide
 example : specCtl [] [.par 1 64] [2] = false := by decide
 
-set_option maxRecDepth 100000 in
-/-- (prefetch_e2e) the scenario model satisfies the specification — checked by evaluation for a few sizes; the
-    statement for every `n` is not proved (the guarantees for every `n` and every interleaving are the ★ theorems
-    above). -/
-theorem e2e_model_meets_spec_partial :
-    (∀ mode ∈ [0, 1, 2], ∀ n ∈ [1, 2, 5], specE2E mode n (modelE2E mode n (if mode = 0 then 500 else 300)) = true) := by
-  decide
+/-- ★ (prefetch_e2e) the scenario model satisfies the specification in every mode and for EVERY number `n ≥ 1`
+    of concurrent hits per wave (upstream delays as the harness uses them: 500 ms in mode 0, 300 ms otherwise):
+    all hits answered from cache, one refresh in flight, renewed TTL after a successful refresh, the old entry
+    still served after a failed one. (Proved through `wave_run`: n client threads on one question, any n.) -/
+theorem e2e_model_meets_spec (mode n : Nat) (hm : mode ≤ 2) (hn : 0 < n) :
+    specE2E mode n (modelE2E mode n (if mode = 0 then 500 else 300)) = true :=
+  specE2E_model mode n hm hn
 
 example : specE2E 0 3 ⟨3, 1, 3, 1, true, 3, 2, some (true, 4), none⟩ = false := by decide
 example : specE2E 0 3 ⟨3, 1, 3, 1, true, 2, 1, some (true, 1), none⟩ = false := by decide
 example : specE2E 1 3 ⟨3, 1, 0, 0, true, 4, 1, some (false, 0), some (false, 0)⟩ = false := by decide
 example : specE2E 0 3 ⟨3, 1, 3, 1, false, 2, 1, some (true, 4), none⟩ = false := by decide
+/-- a failed refresh that wiped the answer (cached, but nothing in it) is rejected -/
+example : specE2E 1 3 ⟨3, 1, 0, 0, true, 4, 1, some (true, 0), some (false, 0)⟩ = false := by decide
 
 /-! ### tie: pinned source facts -/
 
